@@ -10,7 +10,7 @@ Observable correspondence (history of the real run decided by the verified, extr
 Implementation-side monitors: lincheck verdict, conservation (pushed = popped + drained, nothing twice),
 intrusive items read after their disposer ran."""
 import os, json
-import vcheck, conc_check
+import vcheck, conc_check, conc_windows
 
 HARNESS = os.path.join(vcheck.VERIF, "harness/C09/main.cpp")
 BOOST = ["-lboost_thread", "-lboost_system"]     # cds::algo::flat_combining::kernel uses boost::thread_specific_ptr
@@ -95,6 +95,96 @@ def gen_cases(ctx, n, fam, elim, prefix):
         sched = gen_sched(rng, nthreads, (3 + rng.below(2)) if (elim and rng.chance(1, 2)) else rng.below(5))
         cases.append({"id": "%s%d" % (prefix, i), "cfg": gen_cfg(rng, fam, elim, nthreads), "threads": threads, "sched": sched})
     return cases
+
+
+# ------------------------------------------------------------------------------------------------------
+# model-guided window schedules (lib/conc_windows.py) for the two step-modelled configurations.
+#   "w"  victim stalled right before its top CAS (elimination: also before the exchange that takes a slot lock), actor
+#        through one of its CAS / exchange steps or to its end, r more victim steps;
+#   "m"  a third thread runs through one of its writes between actor and victim (thorough);
+#   "a"  victim stalled before ANY of its steps (between the two loads of Guard::protect, between the load of
+#        m_pNext and the CAS, between the last poll of nStatus and the second slot lock), few r;
+#   "d"  TWO victims stalled before their top CAS, the actor's CAS makes both fail: both go to the elimination array
+#        (one collision slot, so they meet) - r steps of the first, r2 of the second, then the rest.
+# (set-up operations of thread 0, threads): P = push of a fresh value, O = pop
+WINDOW_TEMPLATES = [
+    ("",   [["P"], ["P"], ["O"]]),
+    ("P",  [["O"], ["O"], ["P"]]),            # two pops race for the only node: the loser re-protects (empty, or the new push)
+    ("PP", [["O"], ["O"], ["P"]]),
+    ("P",  [["O", "P"], ["O"], ["P"]]),       # pop then push again while another pop holds the old top
+    ("P",  [["P", "O"], ["O", "P"]]),
+    ("PP", [["O"], ["P"], ["O", "O"]]),
+    ("",   [["P"], ["O"], ["P"], ["O"]]),     # four threads: two pairs for the elimination array
+]
+
+
+def window_ops(txt, nv):
+    return [([1, nv()] if ch == "P" else [2]) for ch in txt]
+
+
+def gen_window_cases(ctx, model, elim, rng, quick, prefix):
+    wdir = os.path.join(ctx.work, "wprobe")
+    os.makedirs(wdir, exist_ok=True)
+    cases = []
+    info = {"templates": len(WINDOW_TEMPLATES), "enumerated": 0, "model_probes": 0}
+    kinds = ("cas", "xchg") if elim else ("cas",)
+    for ti, (setup, tpl) in enumerate(WINDOW_TEMPLATES):
+        nth = len(tpl)
+        cfgs = [[0, LFUEL, 0, 4, 0, 0]]
+        if elim:
+            # one collision slot (everybody meets) static / dynamic, and two slots with the threads alternating
+            cfgs = [[0, LFUEL, 1, 1, 0, 1] + [0] * nth, [0, LFUEL, 1, 2, 1, 1] + [t % 2 for t in range(nth)]]
+            if quick:
+                cfgs = [cfgs[(ctx.seed + ti) % 2]]
+        for ci, cfg in enumerate(cfgs):
+            vals = [10]
+            def nv():
+                vals[0] += 1
+                return vals[0]
+            su = window_ops(setup, nv)
+            ths = [window_ops(th, nv) for th in tpl]
+            tag = "%s%d_%d" % (prefix, ti, ci)
+            threads, sw, inf = conc_windows.windows(model, wdir, cfg, ths, setup=su, kinds=kinds, max_r=(14 if elim else 8),
+                                                    third=not quick and nth > 2, double=elim and nth > 2,
+                                                    rs2=(0, 3, 6, 9, 12, 16) if not quick else (0, 4, 8, 12), tag=tag,
+                                                    max_stalls=4)
+            _, sa, inf2 = conc_windows.windows(model, wdir, cfg, ths, setup=su, kinds=kinds, stall="all",
+                                               rs=(0, 2) if quick else (0, 1, 2, 4, 8), tag=tag + "a")
+            sa = [("a" + n, s) for (n, s) in sa]
+            info["enumerated"] += len(sw) + len(sa)
+            info["model_probes"] += inf["model_probes"] + inf2["model_probes"]
+            if quick:
+                sd = [x for x in sw if x[0].startswith("d_")]
+                sw = conc_windows.subsample(rng, [x for x in sw if not x[0].startswith("d_")], 16 if elim else 20) + conc_windows.subsample(rng, sd, 20)
+                sa = conc_windows.subsample(rng, sa, 8)
+            for name, sched in sw + sa:
+                cases.append({"id": "%s_%s" % (tag, name), "cfg": cfg, "threads": threads, "sched": sched})
+    if not quick and len(cases) > 5000:
+        # thorough tier: the full enumeration, up to a budget (a seeded subsample beyond it; 'enumerated' says how many there are)
+        cases = conc_windows.subsample(rng, cases, 5000)
+        info["thorough_budget"] = 5000
+    info["cases"] = len(cases)
+    return cases, info
+
+
+def run_windows(ctx, lin, impl, model, elim, quick, key):
+    t0 = os.times()
+    wcases, winfo = gen_window_cases(ctx, model, elim, ctx.rng.fork(), quick, "we" if elim else "wt")
+    st = run_batch(ctx, lin, impl, wcases, key, model, keep_logs=True)
+    t1 = os.times()
+    winfo["cpu_s"] = round((t1.user + t1.system + t1.children_user + t1.children_system) - (t0.user + t0.system + t0.children_user + t0.children_system), 1)
+    ws = conc_windows.RetryStats()
+    for c in wcases:
+        i = st["logs"].get(c["id"])
+        if i is not None:
+            ws.add(i["lines"], tuple(c["cfg"][2:5]))
+    winfo.update(ws.summary())
+    winfo.update({"eliminated_pairs": st["elim_hits"], "cases_with_elimination": st.get("elim_cases", 0), "backoff_rounds": st.get("elim_rounds", 0),
+                  "diverged_from_model": st["diverged"], "monitor_hits": st["monitor_hits"]})
+    ctx.log("window schedules %s: %d cases (%d enumerated), %d with a failed CAS, %d eliminated pairs, cpu %.1fs" % (
+        key, len(wcases), winfo["enumerated"], winfo["cases_with_failed_cas"], st["elim_hits"], winfo["cpu_s"]))
+    del st["logs"]
+    return st, winfo
 
 
 # ------------------------------------------------------------------------------------------------------
@@ -242,7 +332,7 @@ def nontrivial(lines):
 
 # ------------------------------------------------------------------------------------------------------
 
-def run_batch(ctx, lin, impl, cases, tag, model=None):
+def run_batch(ctx, lin, impl, cases, tag, model=None, keep_logs=False):
     """runs the cases on the real code (and on the model when given); returns stats and reports monitor hits"""
     cf = os.path.join(ctx.work, tag + ".txt")
     conc_check.write_cases(cf, cases)
@@ -330,6 +420,8 @@ def run_batch(ctx, lin, impl, cases, tag, model=None):
                 st["diverged"] += 1
                 if st["first_div"] is None:
                     st["first_div"] = (c, d)
+    if keep_logs:
+        st["logs"] = ilog
     return st
 
 
@@ -375,6 +467,11 @@ def run(ctx):
     stats["step_treiber"] = run_batch(ctx, lin, impl, gen_cases(ctx, n_step, 0, False, "t"), "step_treiber", model_t)
     if model_e:
         stats["step_elim"] = run_batch(ctx, lin, impl, gen_cases(ctx, n_step, 0, True, "e"), "step_elim", model_e)
+    # model-guided window schedules on both step-modelled configurations
+    winfo = {}
+    stats["step_win_treiber"], winfo["treiber"] = run_windows(ctx, lin, impl, model_t, False, not big, "step_win_treiber")
+    if model_e:
+        stats["step_win_elim"], winfo["elimination"] = run_windows(ctx, lin, impl, model_e, True, not big, "step_win_elim")
     # observable correspondence for the variants that are not modelled step by step
     for fam in (0, 1, 2, 3, 4):
         for elim in (False, True):
@@ -399,7 +496,9 @@ def run(ctx):
     if first_div is not None and mon_hits == 0:
         k, (c, d) = first_div
         what = {"step_treiber": "LV.Model.Treiber vs cds::container::TreiberStack<HP,int> (cds/intrusive/treiber_stack.h push/pop, cds/gc/hp.h Guard::protect)",
-                "step_elim": "LV.Model.Elim vs cds::container::TreiberStack<HP,int> with elimination back-off (cds/intrusive/treiber_stack.h elimination_backoff<true>::backoff)"}.get(k, k)
+                "step_elim": "LV.Model.Elim vs cds::container::TreiberStack<HP,int> with elimination back-off (cds/intrusive/treiber_stack.h elimination_backoff<true>::backoff)"}
+        what["step_win_treiber"] = what["step_treiber"]; what["step_win_elim"] = what["step_elim"]
+        what = what.get(k, k)
         ctx.violation("step correspondence no longer holds: " + what, {"correspondence": what, "case": c, "first_divergence": d}, no_input=True)
     if not res.ok and mon_hits == 0:
         ctx.violation("Coq obligations of C09 do not check: %s" % (res.failed[:2],), {"theorem": [f[2] for f in res.failed], "errors": res.failed[:3]}, no_input=True)
@@ -424,11 +523,11 @@ def run(ctx):
     sample = gen_cases(ctx, 1, 0, False, "sample")[0]
     ctx.coverage.update({
         "evaluations": evals, "distinct_nontrivial": len(nontriv),
-        "rule": "program x schedule x configuration triples (2-4 threads, 1-4 push/pop ops each, values distinct per push; uniform, bursty, run-to-a-point-then-switch and lock-step schedules from one splitmix64 stream); distinct = distinct implementation event logs; non-trivial = at least one failed CAS (contended top / protect-validated pointer changed under the popper)",
+        "rule": "program x schedule x configuration triples (2-4 threads, 1-4 push/pop ops each, values distinct per push; uniform, bursty, run-to-a-point-then-switch and lock-step schedules from one splitmix64 stream) plus model-guided window schedules on templates with a pre-filled stack (one / two victims stalled before the top CAS or a slot lock; see window_schedules); distinct = distinct implementation event logs; non-trivial = at least one failed CAS (contended top / protect-validated pointer changed under the popper)",
         "distinct_event_logs": len(shapes), "corpus_cases": len(corpus),
         "traces_validated_against_impl": sum(stats[k]["n"] - stats[k]["diverged"] for k in step_keys),
         "histories_decided_by_verified_lincheck": sum(sum(s["verdicts"].values()) for s in stats.values()),
-        "per_variant": per, "samples": [sample],
+        "per_variant": per, "samples": [sample], "window_schedules": winfo,
         "modelled_step_by_step": ["cds::container::TreiberStack<cds::gc::HP,int> push/pop (Model/Treiber.v)"] + (["the same with elimination back-off, collision arrays 1..4 static/dynamic (Model/Elim.v)"] if model_e else []),
         "observable_only": ["container::TreiberStack<DHP>", "intrusive::TreiberStack<HP|DHP>", "each with elimination on/off", "container::FCStack<int,std::stack<int>> elimination on/off"],
     })
